@@ -86,6 +86,45 @@ func payloadLen(r *rand.Rand, max int) int {
 	return r.Intn(max + 1)
 }
 
+// finishEther completes the frame around an encoded layer-3 packet sitting in the Ethernet buffer in one of the three ways
+// the package offers: SetPayload (in place), AppendPayload (in place; pads to the 60 byte Ethernet minimum) and AppendPayload
+// of a payload built elsewhere (copied in; the foreign slice may have any spare capacity).
+func finishEther(r *rand.Rand, ether packet.Ether, l3 []byte) (out packet.Ether, err error, emode int) {
+	switch emode = r.Intn(3); emode {
+	case 0:
+		out, err = ether.SetPayload(l3)
+	case 1:
+		out, err = ether.AppendPayload(l3)
+	default:
+		ext := make([]byte, len(l3), len(l3)+[]int{0, 1, 64, 3000}[r.Intn(4)])
+		copy(ext, l3)
+		for i := range l3 {
+			l3[i] = 0xee // the copy must come from ext
+		}
+		out, err = ether.AppendPayload(ext)
+	}
+	return
+}
+
+// unpad checks the Ethernet level length rule of the chosen completion and returns the frame without padding.
+func (t *c03) unpad(out packet.Ether, n, emode int, cs map[string]any) ([]byte, bool) {
+	want := n
+	if emode != 0 && n < 60 {
+		want = 60
+	}
+	if len(out) != want {
+		t.viol("encode:ether:length", fmt.Sprintf("frame has %d bytes, header+payload is %d (completion mode %d)", len(out), n, emode), cs)
+		return nil, false
+	}
+	for _, b := range out[n:] {
+		if b != 0 {
+			t.viol("encode:ether:padding", "Ethernet padding is not zero", cs)
+			return nil, false
+		}
+	}
+	return out[:n], true
+}
+
 // udpChain builds Ethernet/IP/UDP exactly as the library's send paths do and checks every layer both ways.
 func (t *c03) udpChain(r *rand.Rand) {
 	c := t.c
@@ -115,6 +154,7 @@ func (t *c03) udpChain(r *rand.Rand) {
 	buf, intact := carve(packet.EthMaxSize, packet.EthMaxSize)
 	var out packet.Ether
 	var err error
+	var emode, n3 int
 	pi := c.Guard("C03", func() any { cs["index"] = t.idx; return cs }, func() {
 		ether := packet.EncodeEther(packet.Ether(buf), map[bool]uint16{false: 0x0800, true: 0x86dd}[v6], src, dst)
 		var l3pl []byte
@@ -142,12 +182,15 @@ func (t *c03) udpChain(r *rand.Rand) {
 		}
 		if v6 {
 			ip6 = ip6.SetPayload(udp, 17)
-			out, err = ether.SetPayload(ip6)
+			n3 = len(ip6)
+			out, err, emode = finishEther(r, ether, ip6)
 		} else {
 			ip4 = ip4.SetPayload(udp, 17)
-			out, err = ether.SetPayload(ip4)
+			n3 = len(ip4)
+			out, err, emode = finishEther(r, ether, ip4)
 		}
 	})
+	cs["ether_completion"] = emode
 	if pi != nil {
 		return
 	}
@@ -173,7 +216,11 @@ func (t *c03) udpChain(r *rand.Rand) {
 		return
 	}
 	// length consistency at every layer
-	l3 := out[14:]
+	bare, ok := t.unpad(out, 14+n3, emode, cs)
+	if !ok {
+		return
+	}
+	l3 := bare[14:]
 	var udpb []byte
 	if v6 {
 		if int(l3[4])<<8|int(l3[5]) != len(l3)-40 || l3[6] != 17 || l3[7] != ttl {
@@ -215,7 +262,10 @@ func (t *c03) udpChain(r *rand.Rand) {
 		t.viol("encode:udpchain:payload(view)", "Frame.Payload() differs from the encoded payload", cs)
 		return
 	}
-	c.Class(fmt.Sprintf("udpchain v6=%v mode=%d len=%s class=%s", v6, mode, lenB(len(pl)), refPayloadName(wantID)))
+	c.Class(fmt.Sprintf("udpchain v6=%v mode=%d ether=%d len=%s class=%s", v6, mode, emode, lenB(len(pl)), refPayloadName(wantID)))
+	if len(out) > 14+n3 {
+		c.Obs("padded_frames", 1)
+	}
 	if c.WantSample() && len(out) < 80 {
 		c.Sample(cs)
 	}
@@ -611,22 +661,24 @@ func (t *c03) rawChain(r *rand.Rand) {
 	buf, intact := carve(packet.EthMaxSize, packet.EthMaxSize)
 	var out packet.Ether
 	var err error
+	var emode int
 	if pi := c.Guard("C03", func() any { cs["index"] = t.idx; return cs }, func() {
 		ether := packet.EncodeEther(packet.Ether(buf), map[bool]uint16{false: 0x0800, true: 0x86dd}[v6], src, dst)
 		if v6 {
 			ip := packet.EncodeIP6(ether.Payload(), ttl, sip, dip)
 			if ip, err = ip.AppendPayload(pl, proto); err == nil {
-				out, err = ether.SetPayload(ip)
+				out, err, emode = finishEther(r, ether, ip)
 			}
 		} else {
 			ip := packet.EncodeIP4(ether.Payload(), ttl, sip, dip)
 			if ip, err = ip.AppendPayload(pl, proto); err == nil {
-				out, err = ether.SetPayload(ip)
+				out, err, emode = finishEther(r, ether, ip)
 			}
 		}
 	}); pi != nil {
 		return
 	}
+	cs["ether_completion"] = emode
 	cs["frame_hex"] = wk.Hex(out)
 	if err != nil || !intact() {
 		t.viol("encode:rawchain:error", fmt.Sprintf("err=%v canary intact=%v", err, intact()), cs)
@@ -637,7 +689,14 @@ func (t *c03) rawChain(r *rand.Rand) {
 	if v6 {
 		hl = 40
 	}
-	if d.Err || d.Proto != int(proto) || d.SrcIP != sip || d.DstIP != dip || len(out) != 14+hl+len(pl) || !bytes.Equal(out[14+hl:], pl) {
+	padded := out
+	if out, ok := t.unpad(out, 14+hl+len(pl), emode, cs); !ok {
+		return
+	} else if len(out) < len(padded) {
+		c.Obs("padded_frames", 1)
+	}
+	out = out[:14+hl+len(pl)]
+	if d.Err || d.Proto != int(proto) || d.SrcIP != sip || d.DstIP != dip || !bytes.Equal(out[14+hl:], pl) {
 		t.viol("encode:rawchain:fields(ref)", fmt.Sprintf("reference reads %+v", d), cs)
 		return
 	}
@@ -645,20 +704,24 @@ func (t *c03) rawChain(r *rand.Rand) {
 		t.viol("encode:rawchain:ip4-checksum", "IPv4 header checksum does not verify", cs)
 		return
 	}
-	if v6 {
-		v := packet.IP6(out[14:])
+	if v6 && len(padded) > len(out) {
+		// an IPv6 packet shorter than 46 bytes (no real upper layer protocol is that short) followed by Ethernet padding: the
+		// IP6 view demands PayloadLen+40 == len and rejects it; same don't-care zone as in C02 (DESIGN Corrections)
+		c.Obs("padded_ip6_dontcare", 1)
+	} else if v6 {
+		v := packet.IP6(padded[14:])
 		if v.IsValid() != nil || v.NextHeader() != proto || v.HopLimit() != ttl || !bytes.Equal(v.Payload(), pl) {
 			t.viol("encode:rawchain:fields(views)", "IP6 view reads back different values", cs)
 			return
 		}
 	} else {
-		v := packet.IP4(out[14:])
+		v := packet.IP4(padded[14:])
 		if v.IsValid() != nil || v.Protocol() != proto || v.TTL() != int(ttl) || !bytes.Equal(v.Payload(), pl) || v.Src() != sip || v.Dst() != dip {
 			t.viol("encode:rawchain:fields(views)", "IP4 view reads back different values", cs)
 			return
 		}
 	}
-	c.Class(fmt.Sprintf("rawchain v6=%v proto=%d len=%s", v6, proto, lenB(len(pl))))
+	c.Class(fmt.Sprintf("rawchain v6=%v proto=%d ether=%d len=%s", v6, proto, emode, lenB(len(pl))))
 }
 
 // robustness: inputs outside the documented preconditions; panics are observations, not violations.
